@@ -1,7 +1,8 @@
 (* Lemmas of the interpreter of Alg/HashWipe.v: a model context whose three fields are in the zero
    set is all-zero after masking, whatever it held; a field that is NOT in the zero set keeps what
    the computation left there.  Plus sensitivity examples: the interpreter run on statement lists
-   with a removed, mis-sized, conditional or misplaced wipe does not report the field as zero. *)
+   with a removed, mis-sized, guarded or misplaced wipe does not report the field as zero, and sizes
+   are compared by value (literal, product, sizeof, with alignment padding). *)
 From Coq Require Import String.
 From Coq Require Import NArith List Bool.
 From LCP Require Import Alg.Words Alg.Sha256Model Alg.MD32Model Alg.HashWipe.
@@ -50,47 +51,73 @@ Proof. intros Hs Hc Hb. unfold mask32. rewrite Hs, Hc, Hb. destruct c; reflexivi
 Local Open Scope string_scope.
 Definition ex_structs : wstructs :=
   [("H_CTX", [("uint32_t", "state", 5%N); ("uint32_t", "count", 2%N); ("uint8_t", "buf", 64%N)]);
-   ("HM_CTX", [("H_CTX", "ictx", 1%N); ("H_CTX", "octx", 1%N)])].
+   ("HM_CTX", [("H_CTX", "ictx", 1%N); ("H_CTX", "octx", 1%N)]);
+   ("P_CTX", [("uint8_t", "tag", 1%N); ("uint64_t", "count", 1%N); ("uint8_t", "buf", 3%N)])].
+Definition ctx_ : wobj := (0%N, "").
+Definition fld_ (f : string) : wobj := (1%N, f).
+Definition other_ : wobj := (2%N, "").
 Definition ex_final (body : list wstmt) : wfn := ("H_Final", ("H_CTX", "ctx", 1%N), body).
 Definition ex_hfinal (body : list wstmt) : wfn := ("HM_Final", ("HM_CTX", "c", 1%N), body).
-Definition ex_pad : wstmt := (0%N, "H_Pad", ["ctx"]).
-Definition ex_wipe (sz : string) : wstmt := (0%N, "insecure_memzero", ["ctx"; sz]).
+Definition ex_pad : wstmt := (0%N, "H_Pad", [ctx_], []).
+Definition ex_wipe (sz : list wfactor) : wstmt := (2%N, "insecure_memzero", [ctx_], sz).
+Definition ex_scratch : wstmt := (2%N, "insecure_memzero", [other_], []).
+Definition sz_type (T : string) : list wfactor := [(1%N, T, 0%N)].
+Definition sz_lit (n : N) : list wfactor := [(0%N, "", n)].
 Definition ex_inner : list wstmt :=
-  [(0%N, "H_Final", ["ihash"; "&c->ictx"]); (0%N, "H_Update", ["&c->octx"; "ihash"; "20"]);
-   (0%N, "H_Final", ["digest"; "&c->octx"])].
+  [(0%N, "H_Final", [other_; fld_ "ictx"], []); (0%N, "H_Update", [fld_ "octx"; other_; other_], []);
+   (0%N, "H_Final", [other_; fld_ "octx"], [])].
+
+(* sizes and offsets by value, with alignment padding *)
+Example ex_sizeof : wsizeof 8 ex_structs "H_CTX" = Some (92%N, 4%N) /\
+                    wsizeof 8 ex_structs "HM_CTX" = Some (184%N, 4%N) /\
+                    wsizeof 8 ex_structs "P_CTX" = Some (24%N, 8%N).
+Proof. repeat split; reflexivity. Qed.
+Example ex_leaves : wleaves_at 8 ex_structs "HM_CTX" 0 =
+  [(["ictx"; "state"], 0%N, 20%N); (["ictx"; "count"], 20%N, 8%N); (["ictx"; "buf"], 28%N, 64%N);
+   (["octx"; "state"], 92%N, 20%N); (["octx"; "count"], 112%N, 8%N); (["octx"; "buf"], 120%N, 64%N)].
+Proof. reflexivity. Qed.
 
 Example ex_wiped :
-  wipes_whole_ctx ex_structs [ex_final [ex_pad; ex_wipe "sizeof(H_CTX)"]] "H_Final" = true.
+  wipes_whole_ctx ex_structs [ex_final [ex_pad; ex_wipe (sz_type "H_CTX")]] "H_Final" = true.
 Proof. reflexivity. Qed.
-Example ex_wiped_deref :
-  wipes_whole_ctx ex_structs [ex_final [ex_pad; ex_wipe "sizeof(*ctx)"]] "H_Final" = true.
+(* the same size written as a literal, as a product, or larger than the object *)
+Example ex_wiped_literal :
+  wipes_whole_ctx ex_structs [ex_final [ex_pad; ex_wipe (sz_lit 92)]] "H_Final" = true.
+Proof. reflexivity. Qed.
+Example ex_wiped_product :
+  wipes_whole_ctx ex_structs [ex_final [ex_pad; ex_wipe [(1%N, "uint32_t", 0%N); (0%N, "", 23%N)]]] "H_Final" = true.
+Proof. reflexivity. Qed.
+(* wipes of other objects may stand anywhere *)
+Example ex_wiped_reordered :
+  wipes_whole_ctx ex_structs [ex_final [ex_pad; ex_scratch; ex_wipe (sz_type "H_CTX"); ex_scratch]] "H_Final" = true.
 Proof. reflexivity. Qed.
 Example ex_wipe_removed :
-  wzero_after 8 ex_structs [ex_final [ex_pad]] "H_Final" = [].
+  wzero_after 8 ex_structs [ex_final [ex_pad; ex_scratch]] "H_Final" = [].
 Proof. reflexivity. Qed.
 Example ex_wipe_pointer_size :
-  wzero_after 8 ex_structs [ex_final [ex_pad; ex_wipe "sizeof(ctx)"]] "H_Final" = [].
+  wzero_after 8 ex_structs [ex_final [ex_pad; ex_wipe [(2%N, "", 0%N)]]] "H_Final" = [].
 Proof. reflexivity. Qed.
-Example ex_wipe_literal_size :
-  wzero_after 8 ex_structs [ex_final [ex_pad; ex_wipe "92"]] "H_Final" = [].
+(* one byte short: the last field is not covered, the first two are *)
+Example ex_wipe_short :
+  wzero_after 8 ex_structs [ex_final [ex_pad; ex_wipe (sz_lit 91)]] "H_Final" = [["state"]; ["count"]].
 Proof. reflexivity. Qed.
-Example ex_wipe_other_type :
-  wzero_after 8 ex_structs [ex_final [ex_pad; ex_wipe "sizeof(HM_CTX)"]] "H_Final" = [].
+Example ex_wipe_unknown_type :
+  wzero_after 8 ex_structs [ex_final [ex_pad; ex_wipe (sz_type "struct other")]] "H_Final" = [].
 Proof. reflexivity. Qed.
 Example ex_wipe_before_use :
-  wzero_after 8 ex_structs [ex_final [ex_wipe "sizeof(H_CTX)"; ex_pad]] "H_Final" = [].
+  wzero_after 8 ex_structs [ex_final [ex_wipe (sz_type "H_CTX"); ex_pad]] "H_Final" = [].
 Proof. reflexivity. Qed.
-Example ex_wipe_conditional :
-  wzero_after 8 ex_structs
-    [ex_final [ex_pad; (1%N, "", ["if(ctx->count[0])insecure_memzero(ctx,sizeof(H_CTX))"])]] "H_Final" = [].
+Example ex_wipe_guarded :
+  wzero_after 8 ex_structs [ex_final [ex_pad; (1%N, "", [], [])]] "H_Final" = [].
 Proof. reflexivity. Qed.
 Example ex_wipe_one_field :
   wzero_after 8 ex_structs
-    [ex_final [ex_pad; (0%N, "insecure_memzero", ["&ctx->count"; "sizeof(uint32_t)"])]] "H_Final" = [].
+    [ex_final [ex_pad; (2%N, "insecure_memzero", [fld_ "count"], [(1%N, "uint32_t", 0%N); (0%N, "", 2%N)])]] "H_Final"
+  = [["count"]].
 Proof. reflexivity. Qed.
 (* HMAC through the inner Final calls: whole object iff the inner Final wipes *)
 Example ex_hmac_through_inner :
-  wipes_whole_ctx ex_structs [ex_final [ex_pad; ex_wipe "sizeof(H_CTX)"]; ex_hfinal ex_inner] "HM_Final" = true.
+  wipes_whole_ctx ex_structs [ex_final [ex_pad; ex_wipe (sz_type "H_CTX")]; ex_hfinal ex_inner] "HM_Final" = true.
 Proof. reflexivity. Qed.
 Example ex_hmac_inner_unwiped :
   wzero_after 8 ex_structs [ex_final [ex_pad]; ex_hfinal ex_inner] "HM_Final" = [].
@@ -98,7 +125,13 @@ Proof. reflexivity. Qed.
 (* an Update on octx after its Final: octx is no longer known to be zero, ictx still is *)
 Example ex_hmac_touched_after :
   wzero_after 8 ex_structs
-    [ex_final [ex_pad; ex_wipe "sizeof(H_CTX)"];
-     ex_hfinal (ex_inner ++ [(0%N, "H_Update", ["&c->octx"; "x"; "1"])])] "HM_Final"
+    [ex_final [ex_pad; ex_wipe (sz_type "H_CTX")];
+     ex_hfinal (ex_inner ++ [(0%N, "H_Update", [fld_ "octx"; other_; other_], [])])] "HM_Final"
+  = [["ictx"; "state"]; ["ictx"; "count"]; ["ictx"; "buf"]].
+Proof. reflexivity. Qed.
+(* the size of ONE half does not cover the HMAC context *)
+Example ex_hmac_half_size :
+  wzero_after 8 ex_structs
+    [ex_final [ex_pad]; ex_hfinal (ex_inner ++ [(2%N, "insecure_memzero", [ctx_], sz_type "H_CTX")])] "HM_Final"
   = [["ictx"; "state"]; ["ictx"; "count"]; ["ictx"; "buf"]].
 Proof. reflexivity. Qed.
